@@ -1,6 +1,6 @@
 package processor
 
-//gosx:file init=github.com/free5gc/chf/cdr/asn
+//gosx:file init=github.com/free5gc/chf/cdr/asn replay=engine
 
 import (
 	"os"
